@@ -1,3 +1,468 @@
-use crate::{json::J, Ctx};
-pub fn c11(_ctx: &Ctx) {}
-pub fn replay(_c: &J) -> bool { false }
+//! C11: conversions are pointwise, order-preserving, layout-independent, non-mutating and repeatable.
+use crate::ev;
+use crate::gen::Rng;
+use crate::json::J;
+use crate::oracle::{MATRICES, PRIMARIES, TRANSFERS};
+use crate::util::*;
+use crate::{Ctx, Tier};
+use std::collections::BTreeMap;
+use std::sync::atomic::{AtomicU64, Ordering::Relaxed};
+use std::sync::Mutex;
+use yuvxyb::*;
+
+const SS: [(u8, u8); 6] = [(0, 0), (1, 0), (1, 1), (0, 1), (2, 0), (2, 2)];
+/// padding triples (Y, U, V): equal and unequal, so that U and V get different strides and origins
+const PADS: [(usize, usize, usize); 7] = [(0, 0, 0), (3, 3, 3), (32, 32, 32), (0, 0, 17), (0, 17, 0), (17, 0, 33), (1, 32, 7)];
+
+fn bits_eq(a: &[[f32; 3]], b: &[[f32; 3]]) -> Option<usize> {
+    if a.len() != b.len() {
+        return Some(usize::MAX);
+    }
+    (0..a.len()).find(|&i| (0..3).any(|c| a[i][c].to_bits() != b[i][c].to_bits()))
+}
+
+/// matrices that decode successfully, including the ones derived from primaries
+const DERIVED: [MC; 5] = [MC::Identity, MC::BT2020ConstantLuminance, MC::ChromaticityDerivedConstantLuminance, MC::ST2085, MC::ICtCp];
+
+fn pick_cfg(i: u64, depth: u8, ss: (u8, u8)) -> YuvConfig {
+    // walk through configurations so that consecutive images on one thread share the matrix but not the primaries,
+    // or the transfer but not the matrix, etc.
+    let prims: Vec<CP> = PRIMARIES.iter().copied().filter(|p| *p != CP::ST428).collect();
+    let m = if i % 3 == 0 { DERIVED[((i / 6) % 5) as usize] } else { MATRICES[((i / 5) % 7) as usize] };
+    let p = prims[(i % prims.len() as u64) as usize];
+    let t = TRANSFERS[((i / 2) % 14) as usize];
+    cfg_full(m, t, p, i % 2 == 0, depth, ss)
+}
+
+struct Img<T: Pixel> {
+    w: usize,
+    h: usize,
+    ss: (u8, u8),
+    /// visible samples per plane, row-major
+    planes: [Vec<u32>; 3],
+    _t: std::marker::PhantomData<T>,
+}
+
+fn build_yuv<T: Pixel>(img: &Img<T>, pad: (usize, usize, usize), junk: &mut Rng, cfg: YuvConfig) -> Yuv<T> {
+    let (cw, ch) = (img.w >> img.ss.0, img.h >> img.ss.1);
+    let (sx, sy) = (img.ss.0 as usize, img.ss.1 as usize);
+    let mut f: Frame<T> = Frame {
+        planes: [Plane::new(img.w, img.h, 0, 0, pad.0, pad.0), Plane::new(cw, ch, sx, sy, pad.1, pad.1), Plane::new(cw, ch, sx, sy, pad.2, pad.2)],
+    };
+    let maxv = if std::mem::size_of::<T>() == 1 { 255 } else { (1u64 << cfg.bit_depth) - 1 };
+    for p in 0..3 {
+        // randomise the whole buffer (padding contents must not matter), then write the visible samples
+        for v in f.planes[p].data.iter_mut() {
+            *v = T::cast_from(junk.below(maxv + 1) as u32);
+        }
+        let (pw, ph) = if p == 0 { (img.w, img.h) } else { (cw, ch) };
+        let stride = f.planes[p].cfg.stride;
+        let d = f.planes[p].data_origin_mut();
+        for y in 0..ph {
+            for x in 0..pw {
+                d[y * stride + x] = T::cast_from(img.planes[p][y * pw + x]);
+            }
+        }
+    }
+    Yuv::new(f, cfg).expect("well-formed frame")
+}
+
+struct Counters {
+    images: AtomicU64,
+    pixel_checks: AtomicU64,
+    layout_checks: AtomicU64,
+    chroma_checks: AtomicU64,
+    fresh_thread_checks: AtomicU64,
+}
+
+fn viol(kind: &str, what: String, case: J) {
+    ev::violation(format!("C11|{kind}"), what, case);
+}
+
+fn case_yuv(w: usize, h: usize, ss: (u8, u8), cfg: &YuvConfig, u8s: bool, seed: u64, idx: u64) -> J {
+    J::obj().set("kind", "c11-yuv").set("w", w).set("h", h).set("ss", [ss.0, ss.1]).set("cfg", cfg_json(cfg)).set("u8", u8s).set("seed", seed).set("index", idx)
+}
+
+/// which pixels get an individual 1x1 comparison
+fn probe_pixels(w: usize, h: usize, rng: &mut Rng) -> Vec<(usize, usize)> {
+    if w * h <= 64 {
+        return (0..h).flat_map(|y| (0..w).map(move |x| (x, y))).collect();
+    }
+    let mut v = vec![(0, 0), (w - 1, 0), (0, h - 1), (w - 1, h - 1), (w / 2, h / 2)];
+    // the last pixels in row-major order (vectorised tails) and the row ends
+    for k in 0..9.min(w * h) {
+        let i = w * h - 1 - k;
+        v.push((i % w, i / w));
+    }
+    for _ in 0..24 {
+        v.push((rng.below(w as u64) as usize, rng.below(h as u64) as usize));
+    }
+    v
+}
+
+fn yuv_source_checks<T: Pixel>(ctx: &Ctx, idx: u64, w: usize, h: usize, ss: (u8, u8), depth: u8, cnt: &Counters, hist: &mut BTreeMap<(u8, u8, usize, usize), u64>) {
+    let u8s = std::mem::size_of::<T>() == 1;
+    let mut rng = Rng::new(ctx.seed, 0x0C11_0000 + idx);
+    let cfg = pick_cfg(idx, depth, ss);
+    let (cw, ch) = (w >> ss.0, h >> ss.1);
+    let maxv = if u8s { 255u64 } else { (1u64 << depth) - 1 };
+    // unique value per pixel where the code space allows it (offset so that neighbours differ in all planes)
+    let uniq = |n: usize, salt: u64| -> Vec<u32> {
+        let base = crate::gen::hash64(idx ^ salt) % (maxv + 1);
+        (0..n).map(|i| ((base + (i as u64) * 7919) % (maxv + 1)) as u32).collect()
+    };
+    let img: Img<T> = Img { w, h, ss, planes: [uniq(w * h, 1), uniq(cw * ch, 2), uniq(cw * ch, 3)], _t: std::marker::PhantomData };
+    let case = || case_yuv(w, h, ss, &cfg, u8s, ctx.seed, idx);
+    let mut junk = rng.clone();
+    let y0 = build_yuv(&img, PADS[0], &mut junk, cfg);
+    let keep = y0.clone();
+    let rgb = match Rgb::try_from(&y0) {
+        Ok(r) => r,
+        Err(e) => {
+            viol("decode-error", format!("{e:?} for {cfg:?}"), case());
+            return;
+        }
+    };
+    cnt.images.fetch_add(1, Relaxed);
+    if rgb.width() != w || rgb.height() != h || rgb.data().len() != w * h {
+        viol("dims|Rgb::try_from(&Yuv)", format!("{w}x{h} in, {}x{} ({} px) out", rgb.width(), rgb.height(), rgb.data().len()), case());
+        return;
+    }
+    // borrowed source untouched
+    if (0..3).any(|p| y0.data()[p] != keep.data()[p]) || y0.config() != keep.config() {
+        viol("source-mutated|&Yuv", "the borrowed Yuv changed during Rgb::try_from(&yuv)".into(), case());
+    }
+    // repeat
+    let rgb2 = Rgb::try_from(&y0).unwrap();
+    if bits_eq(rgb.data(), rgb2.data()).is_some() {
+        viol("not-repeatable|Rgb::try_from(&Yuv)", "two decodes of the same image differ".into(), case());
+    }
+    // repeat after an unrelated conversion with a neighbouring configuration (same matrix, other primaries/transfer)
+    {
+        let other = pick_cfg(idx + 1, depth, (0, 0));
+        let other = YuvConfig { matrix_coefficients: cfg.matrix_coefficients, ..other };
+        let small: Img<T> = Img { w: 2, h: 1, ss: (0, 0), planes: [vec![17, 200], vec![90, 33], vec![140, 250]], _t: std::marker::PhantomData };
+        let _ = Xyb::try_from(&build_yuv(&small, PADS[0], &mut junk, other));
+        let rgb3 = Rgb::try_from(&y0).unwrap();
+        if let Some(i) = bits_eq(rgb.data(), rgb3.data()) {
+            viol(
+                "history-dependent|Rgb::try_from(&Yuv)",
+                format!("decoding the same image again after converting another image with {other:?} changed pixel {i}"),
+                case().set("other_cfg", cfg_json(&other)),
+            );
+        }
+    }
+    // the same computation on a fresh thread (no thread-local state) must agree
+    if idx % 4 == 0 {
+        let fresh = std::thread::scope(|s| s.spawn(|| Rgb::try_from(&y0).map(|r| r.into_data())).join());
+        cnt.fresh_thread_checks.fetch_add(1, Relaxed);
+        if let Ok(Ok(fr)) = fresh {
+            if let Some(i) = bits_eq(rgb.data(), &fr) {
+                viol("history-dependent|fresh-thread", format!("a fresh thread decodes pixel {i} differently from a thread that has already converted other images"), case());
+            }
+        }
+    }
+    // layout independence: other paddings (incl. U and V padded differently), randomised padding contents
+    for pad in PADS.iter().skip(1) {
+        let y1 = build_yuv(&img, *pad, &mut junk, cfg);
+        let r1 = Rgb::try_from(&y1).unwrap();
+        cnt.layout_checks.fetch_add(1, Relaxed);
+        if let Some(i) = bits_eq(rgb.data(), r1.data()) {
+            viol(
+                "layout-dependent|decode",
+                format!("padding {pad:?} (strides {:?}) changes decoded pixel {} of a {w}x{h} image", [y1.data()[0].cfg.stride, y1.data()[1].cfg.stride, y1.data()[2].cfg.stride], i),
+                case().set("pad", [pad.0, pad.1, pad.2]),
+            );
+            break;
+        }
+    }
+    // pointwise: pixel (x,y) equals the decode of the 1x1 4:4:4 image (Y(x,y), U(x>>ssx,y>>ssy), V(..))
+    let cfg1 = YuvConfig { subsampling_x: 0, subsampling_y: 0, ..cfg };
+    let lin = LinearRgb::try_from(&y0);
+    let xyb = Xyb::try_from(&y0);
+    for (x, y) in probe_pixels(w, h, &mut rng) {
+        let t = [img.planes[0][y * w + x], img.planes[1][(y >> ss.1) * cw + (x >> ss.0)], img.planes[2][(y >> ss.1) * cw + (x >> ss.0)]];
+        let one: Yuv<T> = mk_yuv(&[t], cfg1);
+        cnt.pixel_checks.fetch_add(1, Relaxed);
+        let r1 = Rgb::try_from(&one).unwrap();
+        if bits_eq(&rgb.data()[y * w + x..y * w + x + 1], r1.data()).is_some() {
+            viol(
+                "not-pointwise|Rgb::try_from(&Yuv)",
+                format!("pixel ({x},{y}) of the {w}x{h} image decodes to {:?}, its 1x1 image {t:?} to {:?}", rgb.data()[y * w + x], r1.data()[0]),
+                case().set("x", x).set("y", y),
+            );
+            break;
+        }
+        if let (Ok(l), Ok(l1)) = (&lin, LinearRgb::try_from(&one)) {
+            if bits_eq(&l.data()[y * w + x..y * w + x + 1], l1.data()).is_some() {
+                viol("not-pointwise|LinearRgb::try_from(&Yuv)", format!("pixel ({x},{y}) of {w}x{h}: {:?} vs 1x1 {:?}", l.data()[y * w + x], l1.data()[0]), case().set("x", x).set("y", y));
+                break;
+            }
+        }
+        if let (Ok(xx), Ok(x1)) = (&xyb, Xyb::try_from(&one)) {
+            if bits_eq(&xx.data()[y * w + x..y * w + x + 1], x1.data()).is_some() {
+                viol("not-pointwise|Xyb::try_from(&Yuv)", format!("pixel ({x},{y}) of {w}x{h}: {:?} vs 1x1 {:?}", xx.data()[y * w + x], x1.data()[0]), case().set("x", x).set("y", y));
+                break;
+            }
+        }
+    }
+    if let Ok(l) = &lin {
+        if l.width() != w || l.height() != h {
+            viol("dims|LinearRgb::try_from(&Yuv)", format!("{}x{}", l.width(), l.height()), case());
+        }
+    }
+    if let Ok(xx) = &xyb {
+        if xx.width() != w || xx.height() != h {
+            viol("dims|Xyb::try_from(&Yuv)", format!("{}x{}", xx.width(), xx.height()), case());
+        }
+    }
+
+    // ---- encoding: subsampled vs 4:4:4
+    if !matches!(cfg.matrix_coefficients, MC::Identity | MC::BT2020ConstantLuminance | MC::ChromaticityDerivedConstantLuminance | MC::ST2085 | MC::ICtCp) || true {
+        let px: Vec<[f32; 3]> = (0..w * h).map(|_| [rng.unit() as f32, rng.unit() as f32, rng.unit() as f32]).collect();
+        let r = Rgb::new(px.clone(), w, h, cfg.transfer_characteristics, cfg.color_primaries).unwrap();
+        let keep = r.clone();
+        let sub: Result<Yuv<T>, _> = Yuv::try_from((&r, cfg));
+        let full: Result<Yuv<T>, _> = Yuv::try_from((&r, cfg1));
+        if bits_eq(r.data(), keep.data()).is_some() || r.width() != keep.width() || r.transfer() != keep.transfer() || r.primaries() != keep.primaries() {
+            viol("source-mutated|&Rgb", "the borrowed Rgb changed during Yuv::try_from((&rgb,cfg))".into(), case());
+        }
+        if let (Ok(sub), Ok(full)) = (sub, full) {
+            let ok_sizes = sub.data()[0].cfg.width == w && sub.data()[0].cfg.height == h && (1..3).all(|p| sub.data()[p].cfg.width == cw && sub.data()[p].cfg.height == ch) && sub.width() == w && sub.height() == h;
+            if !ok_sizes {
+                viol("plane-sizes|encode", format!("planes {:?}, expected luma {w}x{h}, chroma {cw}x{ch}", (0..3).map(|p| (sub.data()[p].cfg.width, sub.data()[p].cfg.height)).collect::<Vec<_>>()), case());
+            } else {
+                'outer: for y in 0..h {
+                    for x in 0..w {
+                        if sub.data()[0].p(x, y) != full.data()[0].p(x, y) {
+                            viol("luma-differs|encode", format!("luma ({x},{y}) of the subsampled encode differs from the 4:4:4 encode of a {w}x{h} image"), case().set("x", x).set("y", y));
+                            break 'outer;
+                        }
+                    }
+                }
+                'outer2: for cy in 0..ch {
+                    for cx in 0..cw {
+                        let (u, v) = (sub.data()[1].p(cx, cy), sub.data()[2].p(cx, cy));
+                        cnt.chroma_checks.fetch_add(1, Relaxed);
+                        let mut found = None;
+                        for dy in 0..(1usize << ss.1) {
+                            for dx in 0..(1usize << ss.0) {
+                                let (x, y) = ((cx << ss.0) + dx, (cy << ss.1) + dy);
+                                if found.is_none() && full.data()[1].p(x, y) == u && full.data()[2].p(x, y) == v {
+                                    found = Some((dx, dy));
+                                }
+                            }
+                        }
+                        match found {
+                            Some((dx, dy)) => *hist.entry((ss.0, ss.1, dx, dy)).or_insert(0) += 1,
+                            None => {
+                                viol("chroma-from-outside-block|encode", format!("chroma sample ({cx},{cy}) of the {w}x{h} {ss:?} encode equals the 4:4:4 chroma of no pixel in its block"), case().set("cx", cx).set("cy", cy));
+                                break 'outer2;
+                            }
+                        }
+                    }
+                }
+                // encode pointwise: 1x1 encodes of probe pixels
+                for (x, y) in probe_pixels(w, h, &mut rng).into_iter().take(24) {
+                    let r1 = Rgb::new(vec![px[y * w + x]], 1, 1, cfg.transfer_characteristics, cfg.color_primaries).unwrap();
+                    if let Ok(o) = Yuv::<T>::try_from((&r1, cfg1)) {
+                        cnt.pixel_checks.fetch_add(1, Relaxed);
+                        if (0..3).any(|p| o.data()[p].p(0, 0) != full.data()[p].p(x, y)) {
+                            viol("not-pointwise|Yuv::try_from((&Rgb,cfg))", format!("pixel ({x},{y}) of the {w}x{h} 4:4:4 encode differs from the encode of its 1x1 image"), case().set("x", x).set("y", y));
+                            break;
+                        }
+                    }
+                }
+            }
+        }
+    }
+}
+
+/// float-image conversions: whole image vs 1x1 per pixel, vs the same pixels laid out as one row, repeated, source kept
+fn float_checks(ctx: &Ctx, idx: u64, w: usize, h: usize, cnt: &Counters) {
+    let mut rng = Rng::new(ctx.seed, 0x0C11_F000 + idx);
+    let n = w * h;
+    // distinct floats per pixel
+    let px: Vec<[f32; 3]> = (0..n).map(|i| [((i as f32) + rng.unit() as f32) / (n as f32 + 1.0), rng.unit() as f32, (rng.unit() * 0.98 + 0.01) as f32]).collect();
+    let t = TRANSFERS[(idx % 14) as usize];
+    let p = PRIMARIES[((idx / 3) % 11) as usize];
+    let case = || J::obj().set("kind", "c11-float").set("w", w).set("h", h).set("transfer", format!("{t:?}")).set("primaries", format!("{p:?}")).set("seed", ctx.seed).set("index", idx);
+    type Conv = (&'static str, Box<dyn Fn(Vec<[f32; 3]>, usize, usize) -> Option<(Vec<[f32; 3]>, usize, usize)>>);
+    let convs: Vec<Conv> = vec![
+        ("LinearRgb::try_from(Rgb)", Box::new(move |d, w, h| LinearRgb::try_from(Rgb::new(d, w, h, t, p).ok()?).ok().map(|o| (o.data().to_vec(), o.width(), o.height())))),
+        ("Xyb::try_from(Rgb)", Box::new(move |d, w, h| Xyb::try_from(Rgb::new(d, w, h, t, p).ok()?).ok().map(|o| (o.data().to_vec(), o.width(), o.height())))),
+        ("Rgb::try_from((LinearRgb,t,p))", Box::new(move |d, w, h| Rgb::try_from((LinearRgb::new(d, w, h).ok()?, t, p)).ok().map(|o| (o.data().to_vec(), o.width(), o.height())))),
+        ("Rgb::try_from((Xyb,t,p))", Box::new(move |d, w, h| Rgb::try_from((Xyb::new(d, w, h).ok()?, t, p)).ok().map(|o| (o.data().to_vec(), o.width(), o.height())))),
+        ("Xyb::from(LinearRgb)", Box::new(|d, w, h| Some(Xyb::from(LinearRgb::new(d, w, h).ok()?)).map(|o| (o.data().to_vec(), o.width(), o.height())))),
+        ("LinearRgb::from(Xyb)", Box::new(|d, w, h| Some(LinearRgb::from(Xyb::new(d, w, h).ok()?)).map(|o| (o.data().to_vec(), o.width(), o.height())))),
+        ("Hsl::from(LinearRgb)", Box::new(|d, w, h| Some(Hsl::from(LinearRgb::new(d, w, h).ok()?)).map(|o| (o.data().to_vec(), o.width(), o.height())))),
+        ("LinearRgb::from(Hsl)", Box::new(|d, w, h| Some(LinearRgb::from(Hsl::new(d, w, h).ok()?)).map(|o| (o.data().to_vec(), o.width(), o.height())))),
+    ];
+    for (name, f) in &convs {
+        // HSL input wants hue in degrees
+        let input: Vec<[f32; 3]> = if *name == "LinearRgb::from(Hsl)" { px.iter().map(|q| [q[0] * 359.9, q[1], q[2]]).collect() } else { px.clone() };
+        let Some((out, ow, oh)) = f(input.clone(), w, h) else {
+            viol(&format!("conversion-error|{name}"), format!("{name} failed for {t:?}/{p:?}"), case().set("conversion", *name));
+            continue;
+        };
+        cnt.images.fetch_add(1, Relaxed);
+        if ow != w || oh != h || out.len() != n {
+            viol(&format!("dims|{name}"), format!("{w}x{h} in, {ow}x{oh} ({} px) out", out.len()), case().set("conversion", *name));
+            continue;
+        }
+        // same pixels as a single row / single column
+        if let Some((row, _, _)) = f(input.clone(), n, 1) {
+            cnt.layout_checks.fetch_add(1, Relaxed);
+            if let Some(i) = bits_eq(&out, &row) {
+                viol(&format!("shape-dependent|{name}"), format!("pixel {i} of the {w}x{h} image differs from the same data converted as {n}x1"), case().set("conversion", *name));
+            }
+        }
+        if let Some((again, _, _)) = f(input.clone(), w, h) {
+            if bits_eq(&out, &again).is_some() {
+                viol(&format!("not-repeatable|{name}"), "two conversions of the same data differ".into(), case().set("conversion", *name));
+            }
+        }
+        let mut r2 = rng.clone();
+        for (x, y) in probe_pixels(w, h, &mut r2) {
+            let i = y * w + x;
+            cnt.pixel_checks.fetch_add(1, Relaxed);
+            if let Some((one, _, _)) = f(vec![input[i]], 1, 1) {
+                if bits_eq(&out[i..i + 1], &one).is_some() {
+                    viol(&format!("not-pointwise|{name}"), format!("pixel ({x},{y}) of the {w}x{h} image converts to {:?}, alone to {:?}", out[i], one[0]), case().set("conversion", *name).set("x", x).set("y", y));
+                    break;
+                }
+            }
+        }
+    }
+    // float -> YUV 4:4:4 and subsampled dims, pointwise for LinearRgb and Xyb sources
+    let cfg = pick_cfg(idx, 10, (0, 0));
+    let cfg = YuvConfig { matrix_coefficients: MATRICES[(idx % 7) as usize], ..cfg };
+    for (name, src) in [("Yuv::try_from((LinearRgb,cfg))", 0), ("Yuv::try_from((Xyb,cfg))", 1)] {
+        let mk = |d: Vec<[f32; 3]>, w: usize, h: usize| -> Option<Yuv<u16>> {
+            if src == 0 {
+                Yuv::try_from((LinearRgb::new(d, w, h).ok()?, cfg)).ok()
+            } else {
+                Yuv::try_from((Xyb::new(d, w, h).ok()?, cfg)).ok()
+            }
+        };
+        // in-gamut XYB data: derive from the linear pixels
+        let input: Vec<[f32; 3]> = if src == 1 { Xyb::from(LinearRgb::new(px.clone(), w, h).unwrap()).into_data() } else { px.clone() };
+        let Some(whole) = mk(input.clone(), w, h) else {
+            viol(&format!("conversion-error|{name}"), format!("{cfg:?}"), case().set("conversion", name));
+            continue;
+        };
+        cnt.images.fetch_add(1, Relaxed);
+        if whole.width() != w || whole.height() != h || whole.config() != cfg {
+            viol(&format!("dims|{name}"), format!("{}x{} {:?}", whole.width(), whole.height(), whole.config()), case().set("conversion", name));
+            continue;
+        }
+        let mut r2 = rng.clone();
+        for (x, y) in probe_pixels(w, h, &mut r2).into_iter().take(20) {
+            if let Some(one) = mk(vec![input[y * w + x]], 1, 1) {
+                cnt.pixel_checks.fetch_add(1, Relaxed);
+                if (0..3).any(|pl| one.data()[pl].p(0, 0) != whole.data()[pl].p(x, y)) {
+                    viol(&format!("not-pointwise|{name}"), format!("pixel ({x},{y}) of the {w}x{h} image encodes differently from its 1x1 image"), case().set("conversion", name).set("x", x).set("y", y));
+                    break;
+                }
+            }
+        }
+    }
+}
+
+fn sizes(ctx: &Ctx) -> Vec<(usize, usize)> {
+    let mut v = Vec::new();
+    if ctx.tier == Tier::Thorough {
+        for w in 1..=64 {
+            for h in 1..=64 {
+                v.push((w, h));
+            }
+        }
+    } else {
+        let s = [1usize, 2, 3, 4, 5, 6, 7, 8, 15, 16, 17, 31, 32, 33, 63, 64];
+        for w in s {
+            for h in s {
+                v.push((w, h));
+            }
+        }
+    }
+    v
+}
+
+pub fn c11(ctx: &Ctx) {
+    let szs = sizes(ctx);
+    let cnt = Counters { images: AtomicU64::new(0), pixel_checks: AtomicU64::new(0), layout_checks: AtomicU64::new(0), chroma_checks: AtomicU64::new(0), fresh_thread_checks: AtomicU64::new(0) };
+    let hist: Mutex<BTreeMap<(u8, u8, usize, usize), u64>> = Mutex::new(BTreeMap::new());
+    let cases = AtomicU64::new(0);
+    ev::par_ranges("C11", szs.len() as u64, 1, |_w, a, _b| {
+        let (w, h) = szs[a as usize];
+        let mut lh = BTreeMap::new();
+        let mut k = 0u64;
+        for (si, ss) in SS.iter().enumerate() {
+            if w % (1 << ss.0) != 0 || h % (1 << ss.1) != 0 {
+                continue;
+            }
+            for (ti, (u8s, depth)) in [(true, 8u8), (false, 10), (false, 16), (false, 8)].iter().enumerate() {
+                let idx = a * 64 + (si * 4 + ti) as u64;
+                k += 1;
+                if *u8s {
+                    yuv_source_checks::<u8>(ctx, idx, w, h, *ss, *depth, &cnt, &mut lh);
+                } else {
+                    yuv_source_checks::<u16>(ctx, idx, w, h, *ss, *depth, &cnt, &mut lh);
+                }
+            }
+        }
+        for r in 0..2 {
+            float_checks(ctx, a * 2 + r, w, h, &cnt);
+            k += 1;
+        }
+        cases.fetch_add(k, Relaxed);
+        let mut g = hist.lock().unwrap();
+        for (key, v) in lh {
+            *g.entry(key).or_insert(0) += v;
+        }
+    });
+    let g = hist.lock().unwrap();
+    let tbl: Vec<J> = g.iter().map(|((sx, sy, dx, dy), n)| J::obj().set("ss", [*sx, *sy]).set("source_pixel_in_block", [*dx, *dy]).set("chroma_samples", *n)).collect();
+    ev::observe("chroma_source_pixel_histogram", J::Arr(tbl));
+    ev::observe("size_pairs", szs.len());
+    ev::observe("image_configurations", cases.load(Relaxed));
+    ev::observe("images_converted", cnt.images.load(Relaxed));
+    ev::observe("single_pixel_comparisons", cnt.pixel_checks.load(Relaxed));
+    ev::observe("relayout_comparisons", cnt.layout_checks.load(Relaxed));
+    ev::observe("chroma_block_membership_checks", cnt.chroma_checks.load(Relaxed));
+    ev::observe("fresh_thread_comparisons", cnt.fresh_thread_checks.load(Relaxed));
+    ev::sample(J::obj().set("size", [szs[szs.len() / 2].0, szs[szs.len() / 2].1]).set("layouts", "6 subsamplings x {u8/8,u16/10,u16/16,u16/8} x 7 padding triples"));
+    let total = cnt.pixel_checks.load(Relaxed) + cnt.layout_checks.load(Relaxed) + cnt.chroma_checks.load(Relaxed) + cnt.images.load(Relaxed);
+    ev::add_evals(total);
+    ev::add_nontrivial(cases.load(Relaxed));
+    ev::exhaustive(false);
+    ev::rule(
+        "image sizes (quick {1..8,15,16,17,31,32,33,63,64}^2, thorough all of 1..=64 squared) x subsampling (0,0),(1,0),(1,1),(0,1),(2,0),(2,2) (when divisible) x storage {u8/8,u16/10,u16/16,u16/8}, \
+         configurations rotating through standard and primaries-derived matrices, 14 curves, 10 primaries; images carry a distinct code / float per pixel. Checks (all bit-exact): whole-image conversion vs the 1x1 image of a pixel \
+         (all pixels up to 64, else corners, tail and random pixels), vs the same data re-laid-out, vs 7 padding triples with randomised padding contents (U and V padded differently), repeated, repeated after an unrelated conversion, \
+         repeated on a fresh thread, borrowed source unchanged; subsampled encode vs 4:4:4 encode (luma equal, chroma from its own block, plane sizes). distinct/non-trivial = (size, layout, storage) configurations",
+    );
+}
+
+pub fn replay(case: &J) -> bool {
+    let kind = case.get("kind").and_then(J::as_str).unwrap_or("");
+    let (Some(w), Some(h), Some(idx), Some(seed)) = (case.get("w").and_then(J::as_u64), case.get("h").and_then(J::as_u64), case.get("index").and_then(J::as_u64), case.get("seed").and_then(J::as_u64)) else { return false };
+    let ctx = Ctx { monitor: "C11".into(), tier: Tier::Quick, seed, build: String::new(), out: None, args: Default::default() };
+    let cnt = Counters { images: AtomicU64::new(0), pixel_checks: AtomicU64::new(0), layout_checks: AtomicU64::new(0), chroma_checks: AtomicU64::new(0), fresh_thread_checks: AtomicU64::new(0) };
+    let mut lh = BTreeMap::new();
+    match kind {
+        "c11-yuv" => {
+            let ss = case.get("ss").and_then(J::as_arr).map(|a| (a[0].as_u64().unwrap_or(0) as u8, a[1].as_u64().unwrap_or(0) as u8)).unwrap_or((0, 0));
+            let depth = case.get("cfg").and_then(|c| c.get("bit_depth")).and_then(J::as_u64).unwrap_or(8) as u8;
+            if case.get("u8").and_then(J::as_bool).unwrap_or(false) {
+                yuv_source_checks::<u8>(&ctx, idx, w as usize, h as usize, ss, depth, &cnt, &mut lh);
+            } else {
+                yuv_source_checks::<u16>(&ctx, idx, w as usize, h as usize, ss, depth, &cnt, &mut lh);
+            }
+        }
+        "c11-float" => float_checks(&ctx, idx, w as usize, h as usize, &cnt),
+        _ => return false,
+    }
+    ev::add_evals(cnt.pixel_checks.load(Relaxed) + 1);
+    true
+}
